@@ -3,6 +3,7 @@ package rangekeys
 import (
 	"fmt"
 	"runtime/debug"
+	"strings"
 	"sync"
 	"testing"
 
@@ -11,8 +12,13 @@ import (
 	"github.com/cockroachdb/pebble/internal/verif/vlib"
 )
 
+// ballast keeps the heap target large so that collections are rare and Pebble's sync.Pools (WAL
+// writer blocks, iterators) stay warm; it is never touched, so it costs no resident memory.
+var ballast []byte
+
 func TestCheck(t *testing.T) {
-	debug.SetGCPercent(400)
+	ballast = make([]byte, 256<<20)
+	debug.SetGCPercent(100)
 	vlib.Main(t, "C08", func(c *vlib.Ctx) {
 		selfCheckSuffixOrder()
 		selfCheckKeyOrder(append(append(append([]string{"", "z", "a@2", "b@2", "a\x00", "b\x00", "c\x00", "bb\x00"}, c08Probes...), c09Probes...), c09Points...))
@@ -79,6 +85,17 @@ func itersFor(prop string) ([]IterCfg, [][]IOp) {
 	return c08Iters, scripts(c08Probes)
 }
 
+func classifier(prop string) func(*failure) {
+	return func(f *failure) {
+		// C09 drives, for every masking suffix, the iterator without the filter first: a failure on
+		// the with-filter iterator means that the filter changed the result.
+		if prop == "C09" && f.ic != nil && f.ic.Filter && !strings.HasPrefix(f.class, "with-filter-") {
+			f.class = "with-filter-" + f.class
+			f.desc = "the iterator without RangeKeyMasking.Filter agreed with the model for this masking suffix; with the filter: " + f.desc
+		}
+	}
+}
+
 func replay(c *vlib.Ctx, cs Case) {
 	if cs.Prop == "" {
 		cs.Prop = c.Prop
@@ -86,12 +103,10 @@ func replay(c *vlib.Ctx, cs Case) {
 	iters, scr := itersFor(cs.Prop)
 	var st driveStats
 	fmt.Printf("replay %s cfg=%s hist=[%s]\n", cs.Prop, cs.Cfg.Name, hx.HistString(cs.Hist))
-	_, _, f := runHistory(c, cs, iters, scr, true, true, &st)
+	_, _, f := runFresh(c, cs, iters, scr, true, true, &st)
 	c.Eval(1)
 	if f != nil {
-		if cs.Prop == "C09" && f.ic != nil && f.ic.Filter {
-			f.class = "with-filter-" + f.class
-		}
+		classifier(cs.Prop)(f)
 		fmt.Printf("replay: FAIL class=%s %s\n", f.class, f.desc)
 		cs.Iter, cs.Script, cs.At = f.ic, f.script, f.at
 		c.Violation(f.class, f.desc, cs)
@@ -100,16 +115,9 @@ func replay(c *vlib.Ctx, cs Case) {
 	fmt.Println("replay: agree")
 }
 
-// report re-executes a failing case twice before reporting it (DESIGN section 8 rule 4).
-func report(c *vlib.Ctx, cs Case, f *failure, rerun func() *failure) {
-	for k := 0; k < 2; k++ {
-		if f2 := rerun(); f2 == nil || f2.class != f.class {
-			c.Incomplete("violation did not reproduce: " + f.desc)
-			return
-		}
-	}
-	cs.Iter, cs.Script, cs.At = f.ic, f.script, f.at
-	c.Violation(f.class, fmt.Sprintf("cfg=%s hist=[%s]: %s", cs.Cfg.Name, hx.HistString(cs.Hist), f.desc), cs)
+func violation(c *vlib.Ctx, rep Case, f *failure) {
+	rep.Iter, rep.Script, rep.At = f.ic, f.script, f.at
+	c.Violation(f.class, fmt.Sprintf("cfg=%s hist=[%s]: %s", rep.Cfg.Name, hx.HistString(rep.Hist), f.desc), rep)
 }
 
 type totals struct {
